@@ -47,7 +47,7 @@ reg("L6e", flow.rule_L6e, 3)
 for _f, _n in (("N1", 10), ("N2", 10), ("N3", 10), ("N4", 10), ("N5", 8), ("N6", 6), ("N7", 6), ("N8", 8), ("N9", 20), ("N10", 2), ("N11", 2), ("N12", 1), ("N4i", 2), ("X1", 10)):
     reg(_f, getattr(names, "rule_" + _f), _n)
 
-for _f, _n in (("P1", 10), ("P2", 6), ("P3", 4), ("P4", 8), ("P5", 15), ("P6", 8), ("P7", 12), ("P8", 2)):
+for _f, _n in (("P1", 10), ("P2", 6), ("P3", 4), ("P4", 8), ("P5", 15), ("P6", 8), ("P7", 12), ("P8", 2), ("P9", 1)):
     reg(_f, getattr(pairing, "rule_" + _f), _n)
 
 for _f, _n in (("B1", 25), ("B1d", 15), ("B2", 20), ("B3", 5)):
@@ -118,7 +118,7 @@ PROPS = {
               "pair ends that sample's data instead of aborting the export of the remaining samples (S9). An unreadable sibling entry adds nothing and displaces nothing in the volume list (I1)."
               "" + NOT +
               "which name multisets collide after renaming; unequal-length pairs."),
-    "C06": _p(["N1", "N2", "N3", "N4", "N5", "N7", "N9", "P1", "P8", "T1", "I14"],
+    "C06": _p(["N1", "N2", "N3", "N4", "N5", "N7", "N9", "P1", "P8", "T1", "I14", "P9"],
               "Decides confinement and character clauses: every directory class runs the naming routines on the children it hands out (N1) and receives them from its parent (N2); "
               "abstract string domain over the regex ASTs proves export names non-empty, alphabet within {word, space, - . #} (+ parentheses from counters), first character a word "
               "character, no trailing blank, directories not ending in '.' (N4); paths are built from export names only, joined under the destination, single write site (N5); "
